@@ -3,6 +3,8 @@ import TexelVerif.Chess.UCILemmas
 import TexelVerif.Chess.TextIdxLemmas
 import TexelVerif.Chess.FenCounters
 import TexelVerif.Chess.PgnLemmas
+import TexelVerif.Chess.PgnTreeLemmas
+import TexelVerif.Chess.PgnParseLemmas
 /-!
 # C17 — move, position and game text formats round-trip and reject garbage safely
 
@@ -132,5 +134,23 @@ theorem pgn_scanner_progress (cs : List Char) :
 /-- a SYMBOL token is never empty: `tok.token[tok.token.length() - 1]` in `Node::parsePgn` is in range -/
 theorem pgn_symbol_nonempty (cs : List Char) (h : (Pgn.nextTok cs).1.ty = .symbol) : (Pgn.nextTok cs).1.s ≠ [] :=
   Pgn.nextTok_symbol_nonempty cs h
+
+/-- **the PGN reader never fails a checked access**: for every byte string, reading all its games (scanner, tag
+    section, `Node::parsePgn` with its recursion into variations, the `!`/`?` suffix handling) never produces `.oob` —
+    `st.arena[node]` (the `shared_ptr` dereferences), `tok.token[tok.token.length()-1]` and `tok.token[movLen-1]` are
+    always in range.  Invariants carried through the recursion: parent indices point into the arena, and no empty SYMBOL
+    is ever on the put-back stack.  (The explicit recursion fuel of the parser model is *not* proved sufficient.) -/
+theorem pgn_reader_total (s : List Char) (n : Nat) :
+    (Pgn.readAll n { cs := Pgn.tokenChars s } []).2 ≠ some .oob :=
+  Pgn.readAll_noOob n _ [] (fun t ht => by cases ht)
+
+/-- **PGN round trip on the token level** (`Chess/PgnTree.lean`: the writer `getGameTreeString` with each move text as
+    one SYMBOL token, and the recursion of `Node::parsePgn` on SYMBOL / `(` / `)` streams): parsing what the writer
+    writes for any forest of variations returns exactly that forest and consumes everything.  Together with
+    `san_roundtrip` (each symbol is read back as the move it was written for) this is the tree round trip up to the
+    character-level scanning of the written text and the correspondence of `parseLine` with the arena parser of
+    `Chess/Pgn.lean`, both of which are covered by the differential (and the driver's run-time cross-check) only. -/
+theorem pgn_roundtrip_tokens {α : Type} (ks : List (PgnTree.Tree α)) (f : Nat) (hf : (PgnTree.writeKids ks).length < f) :
+    PgnTree.parseLine f (PgnTree.writeKids ks) = (ks, []) := PgnTree.parse_write ks f hf
 
 end Props.C17
